@@ -21,7 +21,7 @@ echo "== test suite with the mutant"; TESTS=$(cd "$D" && PYTHONPATH="$D" timeout
 # the suite rewrites tracked files in the copy; restore sources of truth before running the check
 rsync -a --exclude .git --exclude _out /repo/ "$D/"; patch -p1 -s < "$DST/patch.diff"
 echo "== check $ID against the mutant"
-BEFORE="$(mktemp)"; find /verif/replays -type f 2>/dev/null | sort > "$BEFORE"
+BEFORE="$(mktemp)"; find /verif/replays -type f -not -path "/verif/replays/known/*" 2>/dev/null | sort > "$BEFORE"
 cp "/verif/evidence/$ID.json" "$D/.evidence.bak" 2>/dev/null
 T0=$(date +%s)
 VERIF_REPO="$D" VERIF_SHRINK_S=15 /verif/check "$ID" ${RUNS:+--runs $RUNS} > "$D/.check.txt" 2>&1; RCC=$?
@@ -29,7 +29,7 @@ T1=$(date +%s)
 grep -E "^(VIOLATION|violation:|vsim: C|HARNESS|KNOWN)" "$D/.check.txt" | cut -c1-400 | tail -8
 cp "$D/.evidence.bak" "/verif/evidence/$ID.json" 2>/dev/null
 SIGS=$(grep -E "^violation" "$D/.check.txt" | sed -E 's/.*signature=([^ ]+).*/\1/' | head -6 | tr '\n' ' ')
-find /verif/replays -type f 2>/dev/null | sort | comm -13 "$BEFORE" - | while read -r f; do rm -f "$f"; done; rm -f "$BEFORE"
+find /verif/replays -type f -not -path "/verif/replays/known/*" 2>/dev/null | sort | comm -13 "$BEFORE" - | while read -r f; do rm -f "$f"; done; rm -f "$BEFORE"
 cd /verif
 /venv/bin/python - "$ID" "$DST" "$RC0" "$RC1" "$TESTS" "$RCC" "$SIGS" "$((T1-T0))" "${RUNS:-quick-tier}" <<'PY'
 import json, sys, os
